@@ -27,6 +27,64 @@ safe Version [C03]
 @*/
 
 /*@
+module store
+props C20
+use common core
+dialect neovm
+
+// C20: audit results. A result is stored under i2b(epoch) ++ cid ++ sha256(key)[0:24] (the header fields are cut out of
+// the marshalled result), only with the witness of the key named in the result and only if that key is an Inner Ring
+// key (designated NeoFSAlphabet role); nothing else changes. get(id) returns what was put under id.
+pure aid(e Int, c Bytes, f Bytes) Bytes = i2b(e) ++ c ++ sha256(f)[0:24]
+
+func (a AuditHeader) ID() (r)
+  pure
+  ensures [C20] r == aid(a.Epoch, a.CID, a.From) && !isnil(r)
+
+func Put(rawAuditResult)
+  ensures [C20] exists e Int, c Bytes, f Bytes {aid(e, c, f)} :: W(f) && (exists i Int :: 0 <= i && i < len(designated()) && designated()[i] == f)
+        && store.has(aid(e, c, f)) && store.get(aid(e, c, f)) == rawAuditResult
+        && (forall k Bytes {store.opt(k)} :: k != aid(e, c, f) ==> store.opt(k) == old(store).opt(k))
+  ensures [C20] notifs == old(notifs)
+  loop 0
+    invariant store == old(store) && notifs == old(notifs)
+    invariant presented ==> exists j Int :: 0 <= j && j < len(innerRing) && innerRing[j] == hdr.From
+    invariant !presented ==> forall j Int {innerRing[j]} :: 0 <= j && j < i ==> innerRing[j] != hdr.From
+
+func Get(id) (r)
+  pure
+  ensures [C20] store.has(id) ==> r == store.get(id)
+  ensures [C20] !store.has(id) ==> len(r) == 0
+
+// the listers return the keys under their search prefix in key order (list is inlined at its call sites: it takes the iterator)
+func list(it) (r)
+  inline
+  loop 0
+    invariant len(result) == $it.pos && store == old(store) && notifs == old(notifs)
+    invariant forall j Int {result[j]} :: 0 <= j && j < $it.pos ==> result[j] == $it.key(j)
+
+func ListByNode(epoch, cid, key) (r)
+  pure
+  ensures [C20] len(r) == cnt(store, aid(epoch, cid, key))
+  ensures [C20] forall j Int {r[j]} :: 0 <= j && j < len(r) ==> r[j] == skey(store, aid(epoch, cid, key), j)
+
+func ListByCID(epoch, cid) (r)
+  pure
+  ensures [C20] len(r) == cnt(store, i2b(epoch) ++ cid)
+  ensures [C20] forall j Int {r[j]} :: 0 <= j && j < len(r) ==> r[j] == skey(store, i2b(epoch) ++ cid, j)
+
+func ListByEpoch(epoch) (r)
+  pure
+  ensures [C20] len(r) == cnt(store, i2b(epoch))
+  ensures [C20] forall j Int {r[j]} :: 0 <= j && j < len(r) ==> r[j] == skey(store, i2b(epoch), j)
+
+func List() (r)
+  pure
+  ensures [C20] len(r) == cnt(store, "")
+  ensures [C20] forall j Int {r[j]} :: 0 <= j && j < len(r) ==> r[j] == skey(store, "", j)
+@*/
+
+/*@
 module upgrade
 props C16
 use common core
